@@ -51,6 +51,9 @@ def gen_family(rng, stats, nmax=4, allow_empty=True, dtype_choices=('f', 'f', 'i
             kk = k
             if mix_kinds and k == 'i' and rng.random() < 0.25:
                 l = [float(x) for x in l]; kk = 'f'
+                if rng.random() < 0.5:
+                    # float labels BETWEEN the integers: merged with an integer axis they must survive as they are (a float axis)
+                    l = [x + 0.5 if rng.random() < 0.5 else x for x in l]; stats['fractional_labels_next_to_int_axis']['yes'] += 1
             labels.append(l); kinds.append(kk)
         a = rand_array(rng, dims=ds, lens=[len(l) for l in labels], dtype=rng.choice(dtype_choices), attrs=rng.random() < 0.3)
         a['labels'] = labels; a['axdtype'] = kinds
